@@ -9,7 +9,8 @@ import (
 )
 
 func genC14(t *rapid.T) Case {
-	c := Case{Prof: "c14", Roots: rapid.IntRange(1, 2).Draw(t, "roots"), MaxDir: 100, Variant: rapid.SampledFrom([]int{0, 0, 1, 2}).Draw(t, "variant")}
+	c := Case{Prof: "c14", Roots: rapid.IntRange(1, 2).Draw(t, "roots"), MaxDir: 100, Variant: rapid.SampledFrom([]int{0, 0, 1, 2}).Draw(t, "variant"),
+		RootStyle: rapid.SampledFrom([]int{0, 0, 0, 1, 2, 3}).Draw(t, "rootStyle")}
 	c.Keys = GenKeys(t, 2, 4, true)
 	c.Ops = GenTxOps(t, TxGenOpts{MinOps: 5, MaxOps: 80, Weights: map[string]int{
 		"begin": 6, "set": 14, "del": 4, "commit": 6, "rollback": 3, "gc": 1}})
@@ -19,7 +20,8 @@ func genC14(t *rapid.T) Case {
 func TestC14(t *testing.T) { ev.Check(t, "C14", "seq", genC14, ExecC14) }
 
 func genC17(t *rapid.T) Case {
-	c := Case{Prof: "c17", Roots: rapid.IntRange(1, 3).Draw(t, "roots"), MaxDir: rapid.SampledFrom([]uint64{0, 1, 99, 100, 101, 150}).Draw(t, "limit")}
+	c := Case{Prof: "c17", Roots: rapid.IntRange(1, 3).Draw(t, "roots"), MaxDir: rapid.SampledFrom([]uint64{0, 1, 99, 100, 101, 150}).Draw(t, "limit"),
+		RootStyle: rapid.SampledFrom([]int{0, 0, 1, 2, 3}).Draw(t, "rootStyle")}
 	c.Keys = GenKeys(t, 1, 3, false)
 	n := rapid.IntRange(2, 14).Draw(t, "nops")
 	for i := 0; i < n; i++ {
